@@ -361,3 +361,7 @@ def run(ctx):
             ctx.ob('C17.6', g, 'read-bytes-always-stored', not back, 'every iteration of the output loop %s TaskLogWriter::append' % ('passes' if not back else 'can come back to the loop head WITHOUT') +
                    ('' if not back else ': bytes that were read (and may be previewed later) never reach the stored log'), line=ap.line)
     ctx.floor('C17.6', 'log appends inside output loops', n6, 1)
+
+    # ---------------------------------------------------------------- C17.7
+    from .c03 import c037
+    c037(ctx, rid='C17.7')
